@@ -210,6 +210,33 @@ def scalar_ladder(ctx, al):
                                    "%r %s Stream(thirds)" % (sc, name), "expected": repr(want), "observed": repr(got)})
 
 
+def constant_operands(ctx, al):
+    """Iterable operands whose items are all the same object (itertools.repeat with a count, a Stream made of one,
+    a list of n equal items): still iterables - the result has min(length) items - not scalars."""
+    elems = [Fraction(1, 3), Fraction(5, 3), Fraction(7, 2), Fraction(-2), Fraction(9, 4)]
+    makers = (("repeat(c, n)", lambda c, n: itertools.repeat(c, n)),
+              ("Stream(repeat(c, n))", lambda c, n: al.Stream(itertools.repeat(c, n))),
+              ("[c] * n", lambda c, n: [c] * n),
+              ("iter((c,) * n)", lambda c, n: iter((c,) * n)))
+    for name in ("add", "sub", "mul", "truediv", "pow", "lt", "eq"):
+        f = OPF[name]
+        for side in ("right", "left"):
+            for c in (2, Fraction(1, 2), 1.5):
+                for n in (0, 1, 2, 5, 7):
+                    for label, mk in makers:
+                        want = [f(e, c) if side == "right" else f(c, e) for e in elems[:n]]
+                        try:
+                            res = f(al.Stream(elems), mk(c, n)) if side == "right" else f(mk(c, n), al.Stream(elems))
+                            got = list(itertools.islice(iter(res), len(elems) + 3))
+                        except Exception as ex:
+                            got = ["raised " + type(ex).__name__]
+                        ctx.count(1)
+                        if len(got) != len(want) or not all(same_value(g, w) for g, w in zip(got, want)):
+                            ctx.violation("C01:constant-iterable-operand:%s" % name,
+                                          {"operand": label, "c": repr(c), "n": n, "side": side,
+                                           "expected": repr(want), "observed": repr(got)})
+
+
 def prog_key(prog):
     return tlaval.to_tla(prog)
 
@@ -556,6 +583,7 @@ def check(ctx):
                        "concrete element types only where the type implements the operator"]
     op_table(ctx, al)
     scalar_ladder(ctx, al)
+    constant_operands(ctx, al)
     if ctx.thorough:
         m2_expr(ctx, al, "StreamOpsC01T", "StreamOpsC01T.cfg")
         m3_expr(ctx, al, 6000)
